@@ -1,5 +1,10 @@
 use std::path::PathBuf;
+#[cfg(not(prqlc_verif))]
 use std::{collections::HashMap, path::Path};
+#[cfg(prqlc_verif)]
+use std::{path::Path};
+#[cfg(prqlc_verif)]
+use prqlc_parser::verif_hash::HashMap;
 
 use itertools::Itertools;
 
